@@ -186,6 +186,10 @@ type DotGit struct {
 	incomingOnce    sync.Once
 	incomingDirName string
 
+	// listMu guards the cached directory listings below. A listing is
+	// never modified once published: it is replaced as a whole, so the
+	// snapshots handed out by objectListing and packListing stay valid.
+	listMu     sync.Mutex
 	objectList []plumbing.Hash // sorted
 	objectMap  map[plumbing.Hash]struct{}
 	packList   []plumbing.Hash
@@ -371,6 +375,9 @@ func (d *DotGit) NewObjectPack() (*PackWriter, error) {
 	if cleanErr != nil {
 		return nil, cleanErr
 	}
+	// The listing must be dropped again once the pack is in place: a
+	// lookup made while the writer was open may have regenerated it.
+	pw.published = d.invalidatePackList
 	return pw, nil
 }
 
@@ -434,12 +441,12 @@ func (d *DotGit) ObjectPacks() ([]plumbing.Hash, error) {
 		return d.objectPacks()
 	}
 
-	err := d.genPackList()
+	list, _, err := d.packListing()
 	if err != nil {
 		return nil, err
 	}
 
-	return d.packList, nil
+	return list, nil
 }
 
 func (d *DotGit) objectPacks() ([]plumbing.Hash, error) {
@@ -765,6 +772,11 @@ func (d *DotGit) DeleteOldObjectPackAndIndex(hash plumbing.Hash, t time.Time) er
 	// broken link, so on a removal that leaves the pack behind the marker stays
 	// too. An already-absent pack is a different matter: the marker is then an
 	// orphan vouching for nothing, and goes.
+	// Drop the listing once the files are gone: a listing generated after
+	// the clean above but before the removal would keep answering for the
+	// deleted pack.
+	defer d.invalidatePackList()
+
 	packGone := true
 	if err := d.fs.Remove(packPath); err != nil {
 		if !os.IsNotExist(err) {
@@ -805,7 +817,14 @@ func (d *DotGit) DeleteOldObjectPackAndIndex(hash plumbing.Hash, t time.Time) er
 func (d *DotGit) NewObject() (*ObjectWriter, error) {
 	d.cleanObjectList()
 
-	return newObjectWriter(d.fs, d.options.ObjectFormat)
+	ow, err := newObjectWriter(d.fs, d.options.ObjectFormat)
+	if err != nil {
+		return nil, err
+	}
+	// The listing must be dropped again once the object is in place: a
+	// lookup made while the writer was open may have regenerated it.
+	ow.published = d.cleanObjectList
+	return ow, nil
 }
 
 // ObjectsWithPrefix returns the hashes of objects that have the given prefix.
@@ -818,25 +837,25 @@ func (d *DotGit) ObjectsWithPrefix(prefix []byte) ([]plumbing.Hash, error) {
 	}
 
 	if d.options.ExclusiveAccess {
-		err := d.genObjectList()
+		objectList, _, err := d.objectListing()
 		if err != nil {
 			return nil, err
 		}
 
-		// Rely on d.objectList being sorted.
+		// Rely on objectList being sorted.
 		// Figure out the half-open interval defined by the prefix.
-		first := sort.Search(len(d.objectList), func(i int) bool {
+		first := sort.Search(len(objectList), func(i int) bool {
 			// Same as plumbing.HashSlice.Less.
-			return bytes.Compare(d.objectList[i].Bytes(), prefix) >= 0
+			return bytes.Compare(objectList[i].Bytes(), prefix) >= 0
 		})
-		lim := len(d.objectList)
+		lim := len(objectList)
 		if limPrefix, overflow := incBytes(prefix); !overflow {
-			lim = sort.Search(len(d.objectList), func(i int) bool {
+			lim = sort.Search(len(objectList), func(i int) bool {
 				// Same as plumbing.HashSlice.Less.
-				return bytes.Compare(d.objectList[i].Bytes(), limPrefix) >= 0
+				return bytes.Compare(objectList[i].Bytes(), limPrefix) >= 0
 			})
 		}
-		return d.objectList[first:lim], nil
+		return objectList[first:lim], nil
 	}
 
 	// This is the slow path.
@@ -859,12 +878,12 @@ func (d *DotGit) ObjectsWithPrefix(prefix []byte) ([]plumbing.Hash, error) {
 // .git/objects/ directory.
 func (d *DotGit) Objects() ([]plumbing.Hash, error) {
 	if d.options.ExclusiveAccess {
-		err := d.genObjectList()
+		objectList, _, err := d.objectListing()
 		if err != nil {
 			return nil, err
 		}
 
-		return d.objectList, nil
+		return objectList, nil
 	}
 
 	var objects []plumbing.Hash
@@ -885,12 +904,12 @@ func (d *DotGit) ForEachObjectHash(fun func(plumbing.Hash) error) error {
 		return d.forEachObjectHash(fun)
 	}
 
-	err := d.genObjectList()
+	objectList, _, err := d.objectListing()
 	if err != nil {
 		return err
 	}
 
-	for _, h := range d.objectList {
+	for _, h := range objectList {
 		err := fun(h)
 		if err != nil {
 			return err
@@ -936,27 +955,36 @@ func (d *DotGit) forEachObjectHash(fun func(plumbing.Hash) error) error {
 }
 
 func (d *DotGit) cleanObjectList() {
+	d.listMu.Lock()
 	d.objectMap = nil
 	d.objectList = nil
+	d.listMu.Unlock()
 }
 
-func (d *DotGit) genObjectList() error {
+// objectListing returns the cached listing of loose objects (sorted list and
+// set), generating it first if needed.
+func (d *DotGit) objectListing() ([]plumbing.Hash, map[plumbing.Hash]struct{}, error) {
+	d.listMu.Lock()
+	defer d.listMu.Unlock()
+
 	if d.objectMap != nil {
-		return nil
+		return d.objectList, d.objectMap, nil
 	}
 
-	d.objectMap = make(map[plumbing.Hash]struct{})
+	var objectList []plumbing.Hash
+	objectMap := make(map[plumbing.Hash]struct{})
 	populate := func(h plumbing.Hash) error {
-		d.objectList = append(d.objectList, h)
-		d.objectMap[h] = struct{}{}
+		objectList = append(objectList, h)
+		objectMap[h] = struct{}{}
 
 		return nil
 	}
 	if err := d.forEachObjectHash(populate); err != nil {
-		return err
+		return nil, nil, err
 	}
-	plumbing.HashesSort(d.objectList)
-	return nil
+	plumbing.HashesSort(objectList)
+	d.objectList, d.objectMap = objectList, objectMap
+	return objectList, objectMap, nil
 }
 
 func (d *DotGit) hasObject(h plumbing.Hash) error {
@@ -964,12 +992,12 @@ func (d *DotGit) hasObject(h plumbing.Hash) error {
 		return nil
 	}
 
-	err := d.genObjectList()
+	_, objectMap, err := d.objectListing()
 	if err != nil {
 		return err
 	}
 
-	_, ok := d.objectMap[h]
+	_, ok := objectMap[h]
 	if !ok {
 		return plumbing.ErrObjectNotFound
 	}
@@ -988,8 +1016,7 @@ func (d *DotGit) hasObject(h plumbing.Hash) error {
 // The errors are joined and returned so callers can surface them
 // rather than silently masking I/O failures during cleanup.
 func (d *DotGit) cleanPackList() error {
-	d.packMap = nil
-	d.packList = nil
+	d.invalidatePackList()
 
 	d.packHandlesMu.Lock()
 	handles := d.packHandles
@@ -1005,25 +1032,37 @@ func (d *DotGit) cleanPackList() error {
 	return errors.Join(errs...)
 }
 
-func (d *DotGit) genPackList() error {
+// invalidatePackList drops the cached pack listing only; the cached pack
+// handles stay valid.
+func (d *DotGit) invalidatePackList() {
+	d.listMu.Lock()
+	d.packMap = nil
+	d.packList = nil
+	d.listMu.Unlock()
+}
+
+// packListing returns the cached listing of packs (list and set),
+// generating it first if needed.
+func (d *DotGit) packListing() ([]plumbing.Hash, map[plumbing.Hash]struct{}, error) {
+	d.listMu.Lock()
+	defer d.listMu.Unlock()
+
 	if d.packMap != nil {
-		return nil
+		return d.packList, d.packMap, nil
 	}
 
 	op, err := d.objectPacks()
 	if err != nil {
-		return err
+		return nil, nil, err
 	}
 
-	d.packMap = make(map[plumbing.Hash]struct{}, len(op))
-	d.packList = nil
-
+	packMap := make(map[plumbing.Hash]struct{}, len(op))
 	for _, h := range op {
-		d.packList = append(d.packList, h)
-		d.packMap[h] = struct{}{}
+		packMap[h] = struct{}{}
 	}
 
-	return nil
+	d.packList, d.packMap = op, packMap
+	return op, packMap, nil
 }
 
 func (d *DotGit) hasPack(h plumbing.Hash) error {
@@ -1031,12 +1070,12 @@ func (d *DotGit) hasPack(h plumbing.Hash) error {
 		return nil
 	}
 
-	err := d.genPackList()
+	_, packMap, err := d.packListing()
 	if err != nil {
 		return err
 	}
 
-	_, ok := d.packMap[h]
+	_, ok := packMap[h]
 	if !ok {
 		return ErrPackfileNotFound
 	}
@@ -1127,7 +1166,9 @@ func (d *DotGit) ObjectStat(h plumbing.Hash) (os.FileInfo, error) {
 
 // ObjectDelete removes the object file, if exists
 func (d *DotGit) ObjectDelete(h plumbing.Hash) error {
-	d.cleanObjectList()
+	// Drop the listing once the file is gone: a listing generated before
+	// the removal would keep answering for the deleted object.
+	defer d.cleanObjectList()
 
 	err1 := d.fs.Remove(d.objectPath(h))
 	if os.IsNotExist(err1) && d.hasIncomingObjects() {
